@@ -42,9 +42,9 @@ GNext ==
           \/ ModifyUnknown(o) /\ N % 3 = 1 /\ Log([op |-> "modify", o |-> o, data |-> DataOf(o, Gen(o)), mask |-> S2Q(PickMask(o))])
           \/ Unregister(o) /\ N % 2 = 0 /\ Log([op |-> "unregister", o |-> o])
           \/ UnregisterUnknown(o) /\ N % 3 = 2 /\ Log([op |-> "unregister", o |-> o])
-          \/ PeerWrite(o) /\ Log([op |-> "peer_write", o |-> o])
-          \/ ReadOne(o) /\ Log([op |-> "read_one", o |-> o])
-          \/ ReadAll(o) /\ Log([op |-> "read_all", o |-> o])
+          \/ \E w \in 1..2 : PeerWrite(o) /\ Log([op |-> "peer_write", o |-> o, w |-> w])      \* (w: weight only)
+          \/ \E w \in 1..3 : ReadOne(o) /\ Log([op |-> "read_one", o |-> o, w |-> w])
+          \/ \E w \in 1..2 : ReadAll(o) /\ Log([op |-> "read_all", o |-> o, w |-> w])
           \/ Fill(o) /\ Log([op |-> "fill", o |-> o])
           \/ PeerDrain(o) /\ Log([op |-> "peer_drain", o |-> o])
           \/ ClosePeer(o) /\ N % 4 = 3 /\ Log([op |-> "close_peer", o |-> o])
